@@ -230,6 +230,19 @@ def run(ctx):
                                gram2=[int(gi[0, 0]), int(gi[1, 1]), int(gi[2, 2]), int(gi[1, 2]), int(gi[0, 2]), int(gi[0, 1])],
                                lammps2=bool(b2.is_lammps_norm()))
                 recs.append(rec)
+            # what the caller does, in place, to anything it read from the box is the caller's business: the box keeps its cell
+            snapb = (box.vects.copy(), box.origin.copy(), np.array(box.reciprocal_vects, dtype=float).copy(), box.volume)
+            for nm in ('avect', 'bvect', 'cvect', 'vects', 'origin', 'reciprocal_vects'):
+                got = getattr(box, nm)
+                try:
+                    got *= 0.5
+                    got += 1.0
+                except ValueError:
+                    pass                         # a read-only array is a legitimate way of protecting the cell
+            if not (np.array_equal(box.vects, snapb[0]) and np.array_equal(box.origin, snapb[1])
+                    and np.array_equal(np.array(box.reciprocal_vects, dtype=float), snapb[2]) and box.volume == snapb[3]
+                    and np.allclose(box.position_relative_to_cartesian(box.position_cartesian_to_relative(snapb[0])), snapb[0], rtol=1e-9, atol=1e-9 * np.abs(snapb[0]).max())):
+                ctx.violation('in-place arithmetic on a value read back from the box changes the box', base.get('tag', ''))
             # points: relative numerators over G on (-1..G+1), faces included; shapes (), (n,), (n,m); list + ndarray
             for shape in ((), (5,), (2, 3)):
                 n = int(np.prod(shape)) if shape else 1
